@@ -27,6 +27,8 @@ type c02Case struct {
 	Malform string  `json:"malform"`
 	HTVal   int     `json:"ht_val"`
 	Mut     gen.Mut `json:"mut"`
+	// PreVerify: the signature is first verified (successfully) for the tuple it was made for
+	PreVerify bool `json:"pre_verify,omitempty"`
 }
 
 var c02Malforms = []string{"ht", "sig-empty", "sig-mut", "pubkey-garbage", "pubkey-badtype", "pubkey-len31", "pubkey-len33"}
@@ -71,7 +73,7 @@ func genC02(t *rapid.T) c02Case {
 	if mask&8 != 0 {
 		b.Data = gen.GenMut(t, "dmut").Apply(a.Data)
 	}
-	c := c02Case{A: a, B: b, InclPubKey: rapid.Bool().Draw(t, "incl")}
+	c := c02Case{A: a, B: b, InclPubKey: rapid.Bool().Draw(t, "incl"), PreVerify: rapid.IntRange(0, 2).Draw(t, "preverify") == 0}
 	if rapid.IntRange(0, 3).Draw(t, "malformed") == 0 {
 		c.Malform = rapid.SampledFrom(c02Malforms).Draw(t, "malform")
 		c.HTVal = rapid.SampledFrom([]int{0, 4, 5, 6, 100, -1, 1 << 30, 1, 2, 3}).Draw(t, "htval")
@@ -94,6 +96,21 @@ func checkC02(c c02Case) (o vstat.Outcome) {
 	if err != nil {
 		o.V = vstat.Viol("sign-failed", "NewSignature failed on valid input: %v", err)
 		return
+	}
+	if c.PreVerify {
+		// the signature has just been verified for what it was made for (by this process), before it is
+		// presented for tuple B
+		o.Classes = append(o.Classes, "verified-for-its-own-tuple-first")
+		if v := vstat.Guard("Signature.VerifyWithPublic", func() *vstat.Violation {
+			ok, verr := sig.CloneVT().VerifyWithPublic(c.A.Ctx, gen.Key(c.A.Key).GetPublic(), c.A.Data)
+			if !ok {
+				return vstat.Viol("rejects-matching-tuple", "VerifyWithPublic returned false (err=%v) for the tuple the signature was made for %+v", verr, c.A)
+			}
+			return nil
+		}); v != nil {
+			o.V = v
+			return
+		}
 	}
 	// the verifier's view: signature object with the hash type the verifier is told
 	sig.HashType = hash.HashType(c.B.HT)
